@@ -96,7 +96,13 @@ Record lstate := {
   l_up : bool
 }.
 
+(* a new instance: NewData persists its repo-wide maximum 0 (repo_patches/C03-2-fix.diff) *)
 Definition l_fresh : lstate :=
+  {| l_maxv := []; l_maxrepo := 0; l_next := 0; l_pmaxv := []; l_pmaxrepo := Some 0; l_pnext := None;
+     l_present := []; l_pending := []; l_lost := false; l_up := true |}.
+
+(* ... as the code stood, nothing was persisted until the first label *)
+Definition l_fresh_unrepaired : lstate :=
   {| l_maxv := []; l_maxrepo := 0; l_next := 0; l_pmaxv := []; l_pmaxrepo := None; l_pnext := None;
      l_present := []; l_pending := []; l_lost := false; l_up := true |}.
 
@@ -253,3 +259,19 @@ Definition settled (s : lstate) : bool :=
 (* one process lifetime: no crash, no restart *)
 Definition live_event (e : levent) : bool :=
   match e with LAllocCrash _ _ _ | LCrash | LRestart | LSetNext _ => false | _ => true end.
+
+(* ---- ingests that update the maximum label before they are acknowledged (repo_patches/C12-1-fix.diff):
+   a history is a list of acknowledged requests; an ingest runs its per-block updates to completion
+   before anything else of the history happens ---- *)
+Inductive lreq :=
+| QAlloc (v n : N)
+| QIngest (v : N) (blockmax : list N)
+| QSetMax (v l : N).
+
+Definition expand_req (q : lreq) : list levent :=
+  match q with
+  | QAlloc v n => [LAlloc v n]
+  | QIngest v bms => LIngest v bms :: concat (map (fun _ => [LBgRead 0; LBgWrite 0]) bms)
+  | QSetMax v l => [LSetMax v l]
+  end.
+Definition expand_reqs (qs : list lreq) : list levent := concat (map expand_req qs).
